@@ -23,7 +23,7 @@ RULE = (
 ASSUMPTIONS = [
     "the direction in which an exact .5 tie is rounded is not part of the statement (either neighbour satisfies |shift| <= 0.5) and is not enforced",
     "per-tomogram dimension tables list every tomogram of the particle list (plus possibly others); flipping with a table that omits a tomogram is not specified",
-    "position tolerance 1e-9 * max(1, |p|, scale history) + 2e-7 * (sum of |shift vectors| applied so far, scaled); orientation matrices compared at 1e-6 (scipy as_euler switches to its gimbal-lock branch for |sin theta| < 1e-7, an approximation of ~3e-8)",
+    "position tolerance 1e-9 * max(1, |p|, scale history); only for particles that passed within 1e-4 rad of gimbal lock: + 2e-7 * (sum of |shift vectors| applied so far, scaled) and orientation tolerance 1e-6 instead of 1e-9; orientation matrices compared at 1e-6 (scipy as_euler switches to its gimbal-lock branch for |sin theta| < 1e-7, an approximation of ~3e-8)",
 ]
 BUDGET = {"quick": {"examples": 1300, "seconds": 80}, "thorough": {"examples": 5000, "seconds": 540}}
 
@@ -102,6 +102,9 @@ def run(case):
     other0 = df0[OTHER].to_numpy()
     tomo = df0["tomo_id"].to_numpy()
     scale_hist = 1.0
+    # particles whose orientation came within 1e-4 rad of gimbal lock when it was re-encoded as Euler angles: only for
+    # those does scipy's extraction cost up to ~3e-8 rad (tolerances 1e-6 / shift-propagated slack); all others are held to 1e-9
+    near_gimbal = np.abs(np.sin(np.radians(df0["theta"].to_numpy()))) < 1e-4
     slack = [0.0]  # orientation round-off (<= 2e-7 rad through scipy's near-gimbal-lock branch) carried into positions by shifts
     kinds = [o["op"] for o in case["ops"]]
     nz_shift = bool(np.any(np.abs(df0[["shift_x", "shift_y", "shift_z"]].to_numpy()).sum(axis=1) > 0)
@@ -119,7 +122,7 @@ def run(case):
         ok_, C = call(out, "get_coordinates", lambda: m.get_coordinates())
         if not ok_:
             return False
-        tolp = 1e-9 * np.maximum(1.0, np.abs(P)) * max(1.0, scale_hist) + slack[0]
+        tolp = 1e-9 * np.maximum(1.0, np.abs(P)) * max(1.0, scale_hist) + slack[0] * near_gimbal[:, None]
         bad = np.abs(C - P) > tolp
         if bad.any():
             i, a = np.argwhere(bad)[0]
@@ -127,7 +130,7 @@ def run(case):
             return False
         G = oracle.R_cc_batch(df[["phi", "theta", "psi"]].to_numpy())
         err = np.abs(G - R).max(axis=(1, 2))
-        if (err > 1e-6).any():
+        if (err > np.where(near_gimbal, 1e-6, 1e-9)).any():
             i = int(np.argmax(err))
             out.fail(f"{label}:orientation", f"step {step}: particle row {i}: angles {df[['phi', 'theta', 'psi']].to_numpy()[i].tolist()} matrix error {err[i]:.3e}")
             return False
@@ -178,6 +181,7 @@ def run(case):
             if not ok:
                 return out
             R = R @ Q
+            near_gimbal = near_gimbal | (np.hypot(R[:, 2, 0], R[:, 2, 1]) < 1e-4)
         elif k in ("flip_single", "flip_table", "flip_twice"):
             single = k == "flip_single" or (k == "flip_twice" and not o["use_table"])
             if single:
